@@ -554,6 +554,14 @@ class Flow:
                     inl = self._inline(callee, (obj,) + args, dict(kws), bare=True)
                     if inl is not None:
                         return inl
+            # an alternative constructor of a record type (`Rec.from_line(s)`, a classmethod that returns cls(..)): its value with `cls`
+            # bound to the type
+            if obj[0] == "rectype" and self.func_resolver is not None and self._depth < 2 and all(k != "**" for k, _ in kws):
+                callee = self.func_resolver(f"{obj[1]}.{f.attr}")
+                if callee is not None and callee is not self.func and [ast.unparse(d) for d in callee.decorator_list] == ["classmethod"]:
+                    inl = self._inline(callee, args, dict(kws), recv=obj)
+                    if inl is not None:
+                        return inl
             return ("meth", obj, f.attr, args, kws)
         # dispatch table: `table = {"k": self._m1, ...}; fn = table.get(key) / table[key]; fn(args)` is the if/elif chain
         # `key == "k" -> self._m1(args)` written as data
@@ -650,7 +658,7 @@ class Flow:
                 parts.append(("fmt", val, spec or None, c))
         return flatten_fstr(("fstr", tuple(parts)))
 
-    def _inline(self, callee, args, kws=None, bare=False):
+    def _inline(self, callee, args, kws=None, bare=False, recv=None):
         """Value returned by a small, loop-free helper method for these argument values (phi over its returns).  Instance, class
         and static methods (bare=True: a module-level function, no receiver); positional and keyword arguments; defaults."""
         kws = kws or {}
@@ -672,8 +680,8 @@ class Flow:
         if "staticmethod" not in decs and not bare:
             if not params:
                 return None
-            recv, params = params[0], params[1:]
-            preset[recv] = ("param", "self") if "classmethod" not in decs else ("param", "cls")
+            rname, params = params[0], params[1:]
+            preset[rname] = recv if recv is not None else ("param", "self") if "classmethod" not in decs else ("param", "cls")
         if len(args) > len(params) or any(k not in params for k in kws):
             return None
         preset.update(zip(params, args))
@@ -1609,6 +1617,15 @@ def _simp_selection(v):
                     elt = simp(subst(src[2], m))
                     out = elt if t is True else out if t is False else ("phi", cond, elt, out)
                 return out
+    if k == "cmp" and len(v[1]) == 1 and v[1][0] in ("Is", "IsNot", "Eq", "NotEq") and len(v[2]) == 2 and v[2][0][0] == "const" and v[2][1][0] == "const":
+        # two literals compared (a default `convert=None` tested with `is None` once the helper is back in place)
+        x, y = v[2][0][1], v[2][1][1]
+        if v[1][0] in ("Is", "IsNot") and (x is None or y is None or (isinstance(x, bool) and isinstance(y, bool))):
+            return ("const", (x is y) == (v[1][0] == "Is"))
+        if v[1][0] in ("Eq", "NotEq") and type(x) is type(y) and isinstance(x, (str, int, bool, type(None))):
+            return ("const", (x == y) == (v[1][0] == "Eq"))
+    if k in ("ifexp", "phi") and len(v) == 4 and v[1][0] == "const":
+        return v[2] if v[1][1] else v[3]
     if k == "cmp" and len(v[1]) == 1 and v[1][0] in ("Is", "IsNot", "Eq", "NotEq") and len(v[2]) == 2:
         a, b = v[2]
         tree, other = (a, b) if a[0] in ("phi", "ifexp") else (b, a)
